@@ -259,6 +259,10 @@ func (d *Decoder) Write(p []byte) (n int, err error) {
 	}
 
 	for len(d.buf) > 0 {
+		// A dynamic table size update does not end the beginning of the
+		// header block: RFC 7541 section 4.2 has the encoder signal the
+		// smallest size first and the final size second.
+		sizeUpdate := d.buf[0]&0xe0 == 0x20
 		err = d.parseHeaderFieldRepr()
 		if err == errNeedMore {
 			// Extra paranoia, making sure saveBuf won't
@@ -273,7 +277,9 @@ func (d *Decoder) Write(p []byte) (n int, err error) {
 			d.saveBuf.Write(d.buf)
 			return len(p), nil
 		}
-		d.firstField = false
+		if !sizeUpdate {
+			d.firstField = false
+		}
 		if err != nil {
 			break
 		}
